@@ -1,7 +1,7 @@
 (** C06 — assembly: the leaf facts for every class, and the theorems in the form Props/C06.v
     states them. *)
 From Coq Require Import ZArith List Bool Lia ZifyBool Btauto.
-From SpyneV Require Import C06.Spec C06.LeafProofs C06.SeqProofs C06.StructProofs.
+From SpyneV Require Import C06.Spec C06.LeafProofs C06.SeqProofs C06.StructProofs C06.Closure C06.ClosureProofs.
 Import ListNotations.
 Open Scope Z_scope.
 
@@ -165,3 +165,94 @@ Section AllLeaves.
       rewrite <- Hb. apply uuid_emit_ok; assumption.
   Qed.
 End AllLeaves.
+
+
+(* ------------------------------------------------------------------ emitted documents *)
+(** the pattern table knows every pattern of the universe; the libraries agree on every
+    delegated value that occurs as a facet or a default *)
+Definition patterns_known (pat : text -> option re) (U : univ) : Prop :=
+  forall st p r, In (DLeaf st) (tys_of U) -> fa_pattern (st_fa st) = Some (p, r) -> pat p = Some r.
+Definition constants_ok (olex : okind -> text -> option Z) (ord : okind -> text -> out Z) (U : univ) : Prop :=
+  (forall st g, In (DLeaf st) (tys_of U) -> In g (facet_values (st_fa st)) -> opq_ok olex ord g = true)
+  /\ (forall cl f d, In cl U -> In f (k_own cl) -> fl_default f = Some d -> opq_ok olex ord d = true).
+
+Section Docs.
+  Variable pat : text -> option re.
+  Variable olex : okind -> text -> option Z.
+  Variable ord : okind -> text -> out Z.
+
+  Theorem emitted_doc_valid (U : univ) (S : schema) :
+    dec_leaf_hyp pat olex ->
+    wf_univ U = true -> resolves S U -> patterns_known pat U -> constants_ok olex ord U ->
+    forall n c cl v e m,
+      get_klass U c = Some cl -> v <> NNone ->
+      vconf U (opq_ok olex ord) n (DRef c) v = true ->
+      emit U n (DRef c) None (k_ns cl) (k_name cl) v = Ok e ->
+      (n + length U < m)%nat ->
+      valid_doc pat olex m S (wire e) = true.
+  Proof.
+    intros Hdec Hwf Hres Hpat [Hc1 Hc2] n c cl v e m Hc Hne Hconf Hemit Hm.
+    assert (Hleaf : forall st v0, In (DLeaf st) (tys_of U) -> wf_stype st = true -> leaf_conf st v0 = true ->
+                      opq_ok olex ord v0 = true ->
+                      exists s, pr_leaf (st_base st) v0 = Ok s /\ st_simple_ok pat olex st s = true).
+    { intros st v0 Hin Hw Hl Ho. apply (leaf_emit_all pat olex ord st v0 Hdec Hw); try assumption.
+      - intros p r Hp. eapply Hpat; eassumption.
+      - intros g Hg. eapply Hc1; eassumption. }
+    pose proof (emit_valid pat olex U S (opq_ok olex ord) Hwf Hres Hleaf Hc2 n) as HV.
+    destruct (emit_shape _ _ _ _ _ _ _ _ Hemit) as (atts & txt & kids & ->).
+    rewrite wire_shape. unfold valid_doc.
+    destruct (rs_elem S U Hres c cl Hc) as (d & Hd & Ha). rewrite Hd, Ha.
+    rewrite <- wire_shape.
+    assert (Hq : type_qn U (DRef c) = (k_ns cl, k_name cl)) by (cbn; apply klass_qn_get; exact Hc).
+    rewrite <- Hq. change None with (dtext (DRef c) None) at 1.
+    eapply (HV (DRef c) None (k_ns cl) (k_name cl) v _ false); try eassumption.
+    - cbn. apply nth_error_Some. unfold get_klass in Hc. congruence.
+    - destruct v; try exact Hconf. contradiction.
+    - intros ->. contradiction.
+    - intros d0 Hd0. discriminate.
+  Qed.
+End Docs.
+
+(* ------------------------------------------------------------------ leaf level: the two validators agree *)
+Section LeafAgree.
+  Variable pat : text -> option re.
+  Variable olex : okind -> text -> option Z.
+  Variable ord : okind -> text -> out Z.
+
+  (** integers: on the decimal text of any integer, the published simple type and soft
+      validation reach the same verdict for gt/ge/lt/le, values and the value space of the
+      class (total_digits is published only, max_str_len is enforced by soft validation only) *)
+  Theorem int_leaf_agree st k nil z :
+    st_base st = BInt k -> wf_stype st = true ->
+    fa_total_digits (st_fa st) = None ->
+    ext_leb (Fin (len (str_int z))) (fa_max_str_len (st_fa st)) = true ->
+    st_simple_ok pat olex st (str_int z) = is_ok (soft_leaf ord st nil (Some (str_int z))).
+  Proof.
+    intros Hb Hwf Htd Hlen. rewrite (int_xsd_spec pat olex st k z Hb Hwf), (int_soft_spec ord st k nil z Hb Hwf Hlen), Htd.
+    rewrite andb_true_r.
+    destruct (in_space (BInt k) (SInt z) && range_ok (st_fa st) (SInt z) && values_ok (st_fa st) (SInt z)); reflexivity.
+  Qed.
+
+  (** strings: on every text, for min_len / max_len / values / pattern *)
+  Theorem str_leaf_agree st uri nil txt :
+    st_base st = BStr uri -> wf_stype st = true ->
+    (forall p r, fa_pattern (st_fa st) = Some (p, r) -> pat p = Some r) ->
+    (uri = true -> match txt with Some s => xs_trim s = s | None => True end) ->
+    st_elem_ok pat olex st None txt = is_ok (soft_leaf ord st nil txt).
+  Proof.
+    intros Hb Hwf Hpat Hu. rewrite (str_soft_spec ord st uri nil txt Hb).
+    assert (Hs : st_elem_ok pat olex st None txt = st_simple_ok pat olex st (match txt with None => [] | Some s => s end)).
+    { destruct txt as [[|c r]|]; reflexivity. }
+    rewrite Hs, (str_xsd_spec pat olex ord st uri _ Hb Hwf Hpat).
+    - destruct (str_spec (st_fa st) _); reflexivity.
+    - intros Hu'. specialize (Hu Hu'). destruct txt; [exact Hu|reflexivity].
+  Qed.
+
+  (** booleans: on the xs:boolean literals *)
+  Theorem bool_leaf_agree st nil s :
+    st_base st = BBool -> wf_stype st = true -> xs_bool_lit olex s = true ->
+    st_simple_ok pat olex st s = is_ok (soft_leaf ord st nil (Some s)).
+  Proof.
+    intros Hb Hwf Hl. rewrite (bool_xsd_spec pat olex st s Hb Hwf), (bool_soft_spec ord st nil s Hb Hwf), Hl. reflexivity.
+  Qed.
+End LeafAgree.
